@@ -192,7 +192,8 @@ SvcHealthy(n) ==
     /\ st' = [st EXCEPT ![n] = "HEALTHY"]
     /\ UNCHANGED <<shape, own, pc, res, todo, sawc, sched, running, supLive, procUp, dirty>>
 
-\* Assumption (package documentation): a runnable that signals Done returns nil without further waiting.
+\* A runnable that signalled Done is expected to return nil by itself (package documentation); until it does (pc =
+\* "doneret", any number of other steps may intervene: it may linger) it still counts as a running instance.
 SvcDone(n) ==
     /\ pc[n] = "run" /\ st[n] = "HEALTHY"
     /\ st' = [st EXCEPT ![n] = "DONE"]
